@@ -176,9 +176,20 @@ def run(facts, rep, tier):
         u = ups[0]
         rets = [r_ for r_ in fb.walk(hf.body, into_closures=False) if r_.get("k") == "ret" and (r_.get("s") or [0])[0] < (u.get("s") or [0])[0]]
         conds = []
+        from .common import controlling_tests
+        child_ = u
         for p_ in c_.parents(u):
             if p_.get("k") in ("if", "match"):
-                conds.append(fb.show(p_.get("c") or p_.get("e"))[:60])
+                # `if let Some(text) = params.text { update(.., text) }` / `match params.text { Some(text) => .. }` is the audited
+                # "a save without text carries no edit" in another idiom
+                tst = [t_ for t_ in controlling_tests(c_, child_) if t_[0] is (p_["c"].get("init") if p_.get("k") == "if" and p_["c"].get("k") == "letx" else p_.get("e"))]
+                ok_text = False
+                if tst and tst[0][1] == "pat:Some":
+                    hc = fb.show_canon(hf, tst[0][0]).replace(" ", "")
+                    ok_text = hc in ("P1.text", "P1.text.clone()", "P1.text.as_ref()", "P1.text.as_deref()", "&P1.text")
+                if not ok_text:
+                    conds.append(fb.show(p_.get("c") or p_.get("e"))[:60])
+            child_ = p_
             if p_.get("k") == "closure":
                 host = [q_ for q_ in c_.parents(p_)[:2] if q_.get("k") == "mcall" and p_ in q_.get("args", [])]
                 if host:
